@@ -64,6 +64,7 @@ type FuncSpec struct {
 	Modes map[string]bool // proof-search options of this function's VC (`mode <name>`)
 	Unroll     map[int]int
 	MayPanic   bool // explicit panics are not obligations here (documented rejection)
+	NoPanicWhen []Clause // `nopanic when E` (ext_nopanic.go): under E (entry state) no explicit or propagated panic is reachable
 	Lockset    string // `lockset <field>`: syntactic check that the method runs under receiver.<field> (see lockset.go)
 	Ghosts     []GhostVar    // auxiliary integer variables of the function (initialised at entry)
 	GhostUpds  []*GhostUpd   // assignments to them, anchored at a source line of the function body
@@ -133,7 +134,7 @@ func loadContracts(files []string) (*Contracts, error) {
 	return cs, nil
 }
 
-var clauseKeywords = []string{"rec", "trustpre", "noframe", "lockset", "assumes", "hint", "func", "assume", "spec", "lemma", "requires", "ensures", "panics", "modifies", "reads", "pure", "loop", "property", "inline", "noinline", "fresh", "opaque", "axiom", "package", "uninterp", "maypanic", "expectfail", "mode", "unroll", "unreachable", "ghost", "at", "uses"}
+var clauseKeywords = []string{"rec", "trustpre", "noframe", "lockset", "assumes", "hint", "func", "assume", "spec", "lemma", "requires", "ensures", "panics", "modifies", "reads", "pure", "loop", "property", "inline", "noinline", "fresh", "opaque", "axiom", "package", "uninterp", "maypanic", "expectfail", "mode", "unroll", "unreachable", "ghost", "at", "uses", "nopanic"}
 
 func startsClause(s string) bool {
 	for _, k := range clauseKeywords {
@@ -439,6 +440,17 @@ func (cs *Contracts) loadFile(path string) error {
 			if cur != nil {
 				cur.MayPanic = true
 			}
+		case "nopanic":
+			// nopanic when E (ext_nopanic.go)
+			if cur == nil {
+				return fail(fmt.Errorf("nopanic outside func"))
+			}
+			rest = strings.TrimSpace(strings.TrimPrefix(rest, "when"))
+			cl, err := mkClause(rest, src)
+			if err != nil {
+				return fail(err)
+			}
+			cur.NoPanicWhen = append(cur.NoPanicWhen, cl)
 		case "ghost":
 			// ghost NAME = INIT
 			if cur == nil {
